@@ -149,4 +149,11 @@ TEXT = {
         "level_text": "Each script of per-attempt server behaviours is executed against the real client several times; attempt counts, lower/upper delay bounds against the reference back-off, exit conditions, listener availability, survival of a local conversation across an outage / stream-request timeout and self-reconnect after an orderly Close are checked. The back-off generator itself is compared exhaustively with a reference over small tuples and reset patterns.",
         "level_note": "Real time: upper bounds are tolerant and fall back to inconclusive; scripts are a fixed set plus seeded ones in thorough.",
     },
+    "C01": {
+        "engine": "ve2e (E2E)",
+        "technique": "runtime monitor over real client/server executions on loopback: scripted local clients and targets, position-addressed payloads, per-conversation byte-stream and end-of-direction oracle, UDP tag/source/duplicate/header oracle",
+        "design_ref": "DESIGN.md §4 C01",
+        "level_text": "Conversations of six kinds enter through all eight TCP entry kinds (fixed port, Unix socket, SOCKS4/4a, SOCKS5 v4/v6/domain, HTTP CONNECT) with seeded sizes (0 to several windows), chunking and concurrency; UDP exchanges run through the UDP remote and SOCKS5 UDP ASSOCIATE with several local sockets at once. Every received byte is checked against the sender's position-addressed stream, half-close and close propagation are checked per direction, UDP replies per socket. Exploration under the OS scheduler.",
+        "level_note": "No schedule control on real sockets; a hang needs a /proc quiescence witness, otherwise the run is inconclusive.",
+    },
 }
